@@ -501,6 +501,7 @@ public:
       failed = true;
       violation.vclass = vclass;
       violation.message = msg;
+      request_abort(); // no point in running on
     }
   }
 
